@@ -387,6 +387,9 @@ func (r *Run) checkEffective(prop, oracle string) bool {
 		return true
 	}
 	r.probe("effective_compared")
+	if dir := os.Getenv("HAPSIM_DUMP"); dir != "" {
+		dumpTo(filepath.Join(dir, fmt.Sprintf("eff-%03d", r.probes["effective_compared"])), r.FileSet(r.prefix))
+	}
 	nfd := disk.NormalForm(&NFOptions{RuntimeView: true})
 	nfe := r.ha.Loaded.NormalForm(&NFOptions{RuntimeView: true, Servers: r.ha.Servers, Certs: r.ha.Certs})
 	if d := DiffNF(nfe, nfd, "running", "disk"); d != "" {
